@@ -301,7 +301,11 @@ func (m *c13) setDeadline(t *rapid.T) {
 		m.X.SetDeadline(tm)
 		m.rd, m.rdSetAt, m.wd, m.wdSetAt = ms, m.now(), ms, m.now()
 	}
-	m.log("Set%sDeadline(%d)", which, ms)
+	if ms == noDeadline {
+		m.log("Set%sDeadline(zero time: no deadline)", which)
+	} else {
+		m.log("Set%sDeadline(%d ms)", which, ms)
+	}
 	m.s.Quiesce()
 }
 
@@ -725,7 +729,11 @@ func TestC13Accept(t *testing.T) {
 						m.L.SetReadDeadline(tm)
 					}
 					m.rd, m.rdSetAt = ms, now
-					m.log("listener deadline %d", ms)
+					if ms == noDeadline {
+						m.log("listener deadline cleared")
+					} else {
+						m.log("listener deadline %d ms", ms)
+					}
 				}),
 				"advance": func(t *rapid.T) {
 					d := int64(rapid.SampledFrom([]int{1, 3, 10, 50, 400}).Draw(t, "ms"))
